@@ -47,12 +47,12 @@ META = {
 }
 
 PATSETS = [["G1abs"], ["G2rel"], ["G1abs", "G2rel"], ["G1abs", "G1rel"], ["E3dot", "G1rel", "G2rel"], ["E3dot"]]
-INITFS = [[], ["a.log", "a.log.gz", "d.log"]]
+INITFS = [[], ["a.log", "a.log.gz", "d.log"], ["a0.log", "b.log"]]
 DEVS = ["DEV_RemovalLagsClose", "DEV_PollWhileStreamStale", "DEV_StuckOnDirectory"]
 INVS = ["TypeOK", "Complete", "Follows", "NoDirTailed", "NeverBad", "CountOK", "NoDup", "AllOwed", "NoZombie"]
 DEV_INV = {"DEV_RemovalLagsClose": ["Complete"], "DEV_PollWhileStreamStale": ["NoDup"],
            "DEV_StuckOnDirectory": ["NoDirTailed", "Follows", "Complete"]}
-GLOB = {"G1abs": {"a.log", "b.log", "d.log"}, "G1rel": {"a.log", "b.log", "d.log"}, "G2rel": {"a.log", "a.log.gz"},
+GLOB = {"G1abs": {"a.log", "a0.log", "b.log", "d.log"}, "G1rel": {"a.log", "a0.log", "b.log", "d.log"}, "G2rel": {"a.log", "a.log.gz", "a0.log"},
         "E3dot": {"a.log"}}
 
 
